@@ -10,7 +10,7 @@ pub fn convert_to_ntp_hook(ts: Timestamp) -> NtpTimestamp {
     convert_to_ntp(ts)
 }
 /// Opaque wrapper around the private `CsptpRawMeasurement` with field getters.
-pub struct RawMeasurement(pub(crate) CsptpRawMeasurement);
+pub struct RawMeasurement(CsptpRawMeasurement);
 impl RawMeasurement {
     pub fn request_send_time(&self) -> Timestamp {
         self.0.request_send_time
